@@ -111,7 +111,8 @@ def ser_operand(o):
     if isinstance(o, dict):
         if W in o:
             return "OWild"
-        return "(ODict %s)" % cs(repr(sorted(o.items())))
+        # the same canonical text as ser_pattern writes for a dict pattern (PRaw): the model compares the two texts
+        return "(ODict %s)" % cs(repr(sorted((k, repr(v)) for k, v in o.items())))
     if isinstance(o, (str, int, float, list, tuple)) or o is None:
         raise Unmodelled("operand %r" % (o,))
     return "OOther"
